@@ -514,7 +514,7 @@ class Result:
         return 1 if fresh else 0
 
 
-def standard_flow(res, wd, gens, mode, trace_module, nrand, seed, profile="debug", extra_cases=(), harness_extra=(), shards=None, gen_workers=None, hshards=8):
+def standard_flow(res, wd, gens, mode, trace_module, nrand, seed, profile="debug", extra_cases=(), harness_extra=(), shards=None, gen_workers=None, hshards=8, post=None):
     """gens: list of dicts(module, constants, invariants, [simulate]).  TLC generates the cases and checks
     the model invariants; the harness runs the real code on them (+ nrand of its own seeded cases);
     the Trace_* spec referees.  Returns (trace_path, {line_no: [mismatch tags]})."""
@@ -544,6 +544,8 @@ def standard_flow(res, wd, gens, mode, trace_module, nrand, seed, profile="debug
     aborts = run_harness_parallel(mode, cases, seed, nrand, trace, wd, profile=profile, extra=harness_extra, k=hshards)
     log("[cv] %s: %d lines in %.1fs, %d worker aborts" % (mode, count_lines(trace), time.time() - t0, len(aborts)))
     res.cov["parts"]["worker_aborts"] = len(aborts)
+    if post:
+        trace = post(trace)
     v = tlc_validate(trace_module, trace, wd, shards=shards)
     res.add_states(v)
     res.cov["traces_validated_against_impl"] += v["lines"]
